@@ -34,7 +34,7 @@ PROPS["C29"] = dict(
     rule="sequential part: every sequence over {get(k),put(k,fresh),clear,len} (a) with 5 keys up to length 6 (quick) / 7 (thorough) x capacities 0..4 x {LruCache, ObjectCache}, plus one more length for capacities 3,4 on LruCache, (b) with 3 keys up to length 7 / 9, compared step by step with the reference and probed for membership of every key at the end; (c) random long sequences (8-57 ops, 2-8 keys, capacity 0-6); concurrent part: random plans of 2-3 threads x 3-5 ops on ObjectCache (capacity 1-3) with seeded spins, history stamped at the client boundary from one atomic clock, followed by a quiescent epilogue (len, get of every key, len), searched for a linearization. distinct_nontrivial counts sequences that force an eviction plus distinct concurrent histories in which operations of different threads really overlapped",
     assumptions=["reference LRU model in harness/src/wl/c29_core.rs", "interleavings are whatever the OS scheduler and seeded spins produced (and Miri's seeded scheduler in the thorough tier); they are counted, not enumerated"],
     floors={"quick": {"evaluations": 50_000_000, "distinct": 1_000_000, "counters": {"concurrent_histories_with_real_overlap": 3000}},
-            "thorough": {"evaluations": 500_000_000, "distinct": 10_000_000, "counters": {"concurrent_histories_with_real_overlap": 200000}}},
+            "thorough": {"evaluations": 150_000_000, "distinct": 3_000_000, "counters": {"concurrent_histories_with_real_overlap": 30000}}},
     level_text="Sequential behaviour is enumerated completely up to the stated length (exhaustive for that bound); concurrent behaviour is sampled: each recorded history is decided exactly by the linearizability search, but only the interleavings that occurred are covered.",
     level_note="Trusted base: the reference LRU and the linearizability search in the harness. No claim about interleavings that did not occur.",
 )
@@ -60,7 +60,7 @@ PROPS["C22"] = dict(
     assumptions=["the event log is totally ordered by its own mutex; R5 is judged only from job_start / recorded_fail / op_call order (sound because correct code stores the cancel flag before recorded_fail is logged and loads it after job_start is logged)",
                  "wall-clock watchdog expiry alone is inconclusive; a hang verdict needs >=200 progress-loop iterations after process_jobs returned"],
     floors={"quick": {"evaluations": 12_000, "distinct": 3_000, "counters": {"runs_with_recorded_fail_under_stop_on_error": 1000, "runs_with_panicking_job": 150, "runs_with_mid_run_cancellation": 500}},
-            "thorough": {"evaluations": 500_000, "distinct": 100_000, "counters": {"runs_with_recorded_fail_under_stop_on_error": 50000}}},
+            "thorough": {"evaluations": 120_000, "distinct": 30_000, "counters": {"runs_with_recorded_fail_under_stop_on_error": 10000}}},
     level_text="Sampled schedules: every run's log is decided exactly by the offline checker, but only interleavings that the OS scheduler plus seeded delays produced are covered; their number is reported as distinct interleaving signatures.",
     level_note="Trusted base: hook placement (H2) and the checker in harness/src/wl/c22.rs. Interleavings inside std's channel/mutex are not controlled.",
 )
@@ -73,7 +73,7 @@ PROPS["C07"] = dict(
     rule="random data textures (0..12k bytes quick / 40k thorough, incl. inputs that cross every LZW code-width boundary and force table resets) x chains of 1-3 filters x predictor {none,2,10..15} x colours 1-4 x bpc {1,2,4,8,16} x columns 1-64, plus CCITT G4 bitmaps (widths 1-200). Non-trivial: >=2 filters, or a predictor, or LZW input > 400 bytes, or CCITT; distinct by (chain, parameters, data hash)",
     assumptions=["own encoders are validated on every run against weezl (LZW, identical output below the table-full boundary) and, for CCITT, against the fax crate's own decoder; a case the reference side cannot round-trip is inconclusive, never a violation",
                  "only the last filter of a chain carries a predictor (its input must be whole rows)"],
-    floors={"quick": {"evaluations": 40_000, "distinct": 20_000}, "thorough": {"evaluations": 2_000_000, "distinct": 1_000_000}},
+    floors={"quick": {"evaluations": 40_000, "distinct": 20_000}, "thorough": {"evaluations": 800_000, "distinct": 400_000}},
     level_text="Sampled inputs over the whole stated parameter space with an exact oracle (byte equality); the evidence lists the (filter x predictor x bpc x colours) cells and chains actually exercised.",
     level_note="Trusted base: flate2's encoder (zlib), weezl, fax, and the small own encoders in harness/src/gen/enc.rs. CCITT Group 3 is not generated (no independent G3 encoder available).",
 )
@@ -85,7 +85,7 @@ PROPS["C08"] = dict(
     stages=[rust()],
     rule="C07's reference-encoded cases x limits {0,1,each stage size-1/+0/+1,2x,usize::MAX,random}; verdicts: Ok(v) => len(v)<=L; L>=final size and Ok => equals decode(); L>=every stage size => must be Ok. Plus random/garbled data under random filter arrays and DecodeParms (panic and length only). Non-trivial: limit within [final-1, max stage+1]; distinct by (case, limit)",
     assumptions=["if the final size fits but an intermediate buffer does not, both Ok(equal) and Err are accepted (the documentation applies the bound to every produced buffer)"],
-    floors={"quick": {"evaluations": 100_000, "distinct": 30_000}, "thorough": {"evaluations": 3_000_000, "distinct": 1_000_000}},
+    floors={"quick": {"evaluations": 100_000, "distinct": 30_000}, "thorough": {"evaluations": 500_000, "distinct": 200_000}},
     level_text="Sampled inputs; the oracle is exact for each (case, limit) pair because the stage sizes are known from the encoding side.",
     level_note="Trusted base: the C07 encoders (stage sizes) and decode() itself as the differential partner.",
 )
@@ -99,7 +99,7 @@ PROPS["C04"] = dict(
     assumptions=["pdfgen (independent writer) and pdf.Document (independent strict reader) agree with the model before the library is judged; a disagreement is a harness error (inconclusive)",
                  "a freed object may read as null or as an error, never as a stale value"],
     floors={"quick": {"evaluations": 1000, "distinct": 500, "counters": {"observations": 3000, "recovery_path_taken": 300}},
-            "thorough": {"evaluations": 30000, "distinct": 15000, "counters": {"observations": 100000}}},
+            "thorough": {"evaluations": 12000, "distinct": 6000, "counters": {"observations": 36000}}},
     level_text="Sampled histories with an exact oracle per object (unique markers make the observed revision unambiguous).",
     level_note="Trusted base: pyref/pdfgen.py + pyref/pdf.py (anchored to qpdf fixtures for encryption, to the repository fixtures for reading).",
 )
@@ -111,7 +111,7 @@ PROPS["C18"] = dict(
     stages=[py("pyref.checks.c18", args={"phase": "gen"}), rust(id="OBS", args={"dir": "{out}/cases"}), py("pyref.checks.c18", args={"phase": "check"})],
     rule="trees of depth <=5 (quick) / 8, fan-out <=5 / 12, up to 40 / 400 leaves, /Kids direct or indirect, MediaBox/CropBox/Rotate/Resources placed at random levels, objects written in shuffled order, classic or stream xref; every third tree is inconsistent. Non-trivial: >=3 leaves; distinct by tree id",
     assumptions=["for inconsistent trees only order-consistency of what is returned, absence of panics and termination are judged (errors and shorter lists are accepted)"],
-    floors={"quick": {"evaluations": 1000, "distinct": 700, "counters": {"observations": 4000}}, "thorough": {"evaluations": 20000, "distinct": 15000}},
+    floors={"quick": {"evaluations": 1000, "distinct": 700, "counters": {"observations": 4000}}, "thorough": {"evaluations": 8000, "distinct": 4000}},
     level_text="Sampled trees, exact oracle per page (unique ids and markers).",
     level_note="Trusted base: pyref/pdfgen.py, pyref/pdf.py page flattener.",
 )
@@ -137,7 +137,7 @@ PROPS["C06"] = dict(
     rule="plaintext document (strings in Info incl. non-ASCII bytes and nesting, annotation strings, content/XMP/binary streams with strings in stream dictionaries) x {RC4-40 R2, RC4-128 R3, RC4 V4, AES-128 R4, AES-256 R6} x EncryptMetadata on/off x {classic, object streams + xref stream} x Identity crypt-filter stream x password classes {empty, ASCII, symbols, Latin-1, 40 bytes, BMP, astral} x {user, owner, wrong password}. Non-trivial: object-stream layout, or EncryptMetadata false, or a non-ASCII password; distinct by (case, password role)",
     assumptions=["the reference encryptor/decryptor is anchored to real qpdf output through the fixtures self-test (same algorithms, other direction) and must round-trip each generated file itself before the library is judged",
                  "passwords that PDFDocEncoding cannot represent are not used with R<=4 (no defined behaviour)"],
-    floors={"quick": {"evaluations": 600, "distinct": 300, "counters": {"observations": 1000}}, "thorough": {"evaluations": 20000, "distinct": 10000}},
+    floors={"quick": {"evaluations": 600, "distinct": 300, "counters": {"observations": 1000}}, "thorough": {"evaluations": 6000, "distinct": 3000}},
     level_text="Sampled configurations with an exact per-object oracle; the evidence lists the (mode x layout x EncryptMetadata x password class) cells exercised.",
     level_note="Trusted base: pyref/crypto.py (FIPS-197 / RFC 6229 vectors, OpenSSL cross-check, qpdf fixtures), pyref/pdfgen.py. qpdf itself is not installed.",
 )
@@ -161,7 +161,7 @@ PROPS["C02"] = dict(
     stages=[rust(id="DOC", args={"flavor": "c02"}), rust(id="OBS", args={"dir": "{out}/cases"}), py("pyref.checks.docchecks", args={"prop": "C02"})],
     rule="program = 1-6 pages (5 page sizes incl. fractional, rotation 0/90/180/270), 3-30 drawing/text steps per page (paths, fills, strokes, RGB/gray/CMYK colours, line width, q/Q, cm, text in 8 standard fonts with delimiters and Latin-1), raw RGB / gray / RGBA images, annotations, outlines, metadata; every program under xref table|stream x object streams x compression x version 1.4/1.5/1.7/2.0. Non-trivial: >=2 pages or >=1 image, and >=10 operators; distinct by (program, configuration)",
     assumptions=["the model's content is the page's own in-memory serialisation (hook H5); API-call -> operator fidelity is C21's subject", "annotation, outline and metadata *text* is judged by C10/C28, here only counts"],
-    floors={"quick": {"evaluations": 300, "distinct": 150, "counters": {"obs": 500, "programs_with_100_or_more_pages": 1, "programs_reusing_one_image_name_across_pages": 1}}, "thorough": {"evaluations": 15000, "distinct": 8000}},
+    floors={"quick": {"evaluations": 300, "distinct": 150, "counters": {"obs": 500, "programs_with_100_or_more_pages": 1, "programs_reusing_one_image_name_across_pages": 1}}, "thorough": {"evaluations": 1500, "distinct": 700}},
     level_text="Sampled programs, exhaustive over the 32-point configuration lattice for each program; exact oracles (token and sample equality).",
     level_note="Trusted base: pyref/pdf.py (strict reader, anchored to repository fixtures), hook H5.",
 )
@@ -173,7 +173,7 @@ PROPS["C03"] = dict(
     stages=[rust(id="DOC", args={"flavor": "c03"}), rust(id="OBS", args={"dir": "{out}/cases"}), py("pyref.checks.docchecks", args={"prop": "C03"})],
     rule="C02's programs with hostile text (delimiters, controls, cp1252, BMP, astral) in content, metadata, annotations and outlines x 32 configurations, a quarter of them additionally encrypted (4 strengths). Every written file counts as non-trivial; distinct by file",
     assumptions=["only rules the specification states with 'shall'; whitespace and key order are free", "a benign hybrid scan (xref.hybrid_fill) is not counted as recovery"],
-    floors={"quick": {"evaluations": 300, "distinct": 300, "counters": {"opened_without_recovery": 400}}, "thorough": {"evaluations": 15000, "distinct": 15000}},
+    floors={"quick": {"evaluations": 300, "distinct": 300, "counters": {"opened_without_recovery": 400}}, "thorough": {"evaluations": 1500, "distinct": 800}},
     level_text="Sampled programs x all configurations, each file judged by an independent validator and by the hook-instrumented library reader.",
     level_note="Trusted base: pyref/validate.py (self-test with one negative file per rule), pyref/pdf.py, hooks H3.",
 )
@@ -185,7 +185,7 @@ PROPS["C05"] = dict(
     stages=[rust(id="DOC", args={"flavor": "c05"}), rust(id="OBS", args={"dir": "{out}/cases"}), py("pyref.checks.c05")],
     rule="programs (strings in Info, annotations, outlines; content and image streams) x 5 sampled configurations x {RC4-40, RC4-128, AES-128, AES-256} x password pairs from {empty, ASCII, symbols, Latin-1, BMP, astral, 33 bytes, 127 bytes} x permission words (random 8-bit sets, all) x {user, owner, wrong password}. Every (file, password role) counts; distinct by (file, role)",
     assumptions=["the plain build of the same program under the same configuration is the reference content", "an empty user password makes the wrong-password case moot (anybody may open the file)"],
-    floors={"quick": {"evaluations": 800, "distinct": 500, "counters": {"ref_decryptions": 300, "obs": 500}}, "thorough": {"evaluations": 30000, "distinct": 20000}},
+    floors={"quick": {"evaluations": 800, "distinct": 500, "counters": {"ref_decryptions": 300, "obs": 500}}, "thorough": {"evaluations": 3000, "distinct": 1500}},
     level_text="Sampled programs, configurations and passwords with an exact graph-equality oracle on both the library's and the independent implementation's reading.",
     level_note="Trusted base: pyref/crypto.py (anchored to qpdf fixtures), pyref/pdf.py.",
 )
@@ -197,7 +197,7 @@ PROPS["C20"] = dict(
     stages=[rust(id="C20"), py("pyref.checks.c20")],
     rule="rich docgen programs x all unencrypted writer configurations (quick: the 16 without object streams + 2 sampled with) x {same Document twice, fresh Document, second process}. Every (program, configuration) counts; distinct by (program, configuration)",
     assumptions=["dates are fixed with set_creation_date / set_modification_date and write_document is called directly (no Utc::now() on that path)"],
-    floors={"quick": {"evaluations": 1500, "distinct": 800, "counters": {"cross_process_pairs_compared": 700}}, "thorough": {"evaluations": 60000, "distinct": 30000}},
+    floors={"quick": {"evaluations": 1500, "distinct": 800, "counters": {"cross_process_pairs_compared": 700}}, "thorough": {"evaluations": 8000, "distinct": 4000}},
     level_text="Sampled programs over the configuration lattice with an exact oracle; cross-process comparison exercises different HashMap seeds.",
     level_note="Trusted base: none beyond byte comparison.",
 )
@@ -209,7 +209,7 @@ PROPS["C10"] = dict(
     stages=[rust(id="DOC", args={"flavor": "c10"}), rust(id="OBS", args={"dir": "{out}/cases"}), py("pyref.checks.c10")],
     rule="text classes {ASCII, ASCII with PDF delimiters and backslash, Latin-1, cp1252-only, BMP (Greek/Cyrillic/CJK), astral, controls incl. TAB/CR/LF, BOM-like prefix} x 6 Info entries, annotation /Contents, outline titles x 3 sampled writer configurations. Non-trivial: at least one non-ASCII class in the document; distinct by file",
     assumptions=["form-field values and incremental fills are exercised with C17's histories, not here"],
-    floors={"quick": {"evaluations": 600, "distinct": 300, "counters": {"strings_checked": 3000}}, "thorough": {"evaluations": 40000, "distinct": 20000}},
+    floors={"quick": {"evaluations": 600, "distinct": 300, "counters": {"strings_checked": 3000}}, "thorough": {"evaluations": 10000, "distinct": 4000}},
     level_text="Sampled strings per class, exact equality oracle on both readers.",
     level_note="Trusted base: pyref text-string decoder + transcribed PDFDocEncoding table.",
 )
@@ -221,7 +221,7 @@ PROPS["C28"] = dict(
     stages=[rust(id="DOC", args={"flavor": "c28"}), py("pyref.checks.c28")],
     rule="outline forests (depth <=4, 0-4 children per item, random closed flags, 5 destination kinds on random pages) and 0-12 named destinations, on 1-6 page documents x 3 sampled configurations; half of the unencrypted cases are written a second time from the same Document after encryption was switched on (object numbers shift). Non-trivial: document has an outline or named destinations; distinct by file",
     assumptions=["titles are ASCII here (Unicode titles are C10's subject)"],
-    floors={"quick": {"evaluations": 600, "distinct": 400, "counters": {"outline_items_checked": 2000, "second_writes_after_a_change": 100}}, "thorough": {"evaluations": 40000, "distinct": 25000}},
+    floors={"quick": {"evaluations": 600, "distinct": 400, "counters": {"outline_items_checked": 2000, "second_writes_after_a_change": 100}}, "thorough": {"evaluations": 12000, "distinct": 6000}},
     level_text="Sampled forests with an exact structural oracle.",
     level_note="Trusted base: pyref/pdf.py.",
 )
@@ -257,7 +257,7 @@ PROPS["C01"] = dict(
     stages=[rust()],
     rule="inputs <= 256 KiB: (a) systematic numeric-slot mutation: every occurrence of /Size /Prev /W /Index /N /First /Length /Predictor /Colors /Columns /BitsPerComponent /Rotate /Count /Rows /K /EarlyChange /Width /Height /XRefStm /Extends, xref subsection headers and entry offsets in 8 template files (library-written under 6 configurations + hand-written xref-stream/object-stream/predictor/incremental skeletons) x a pool of 22 boundary integers, (b) pairs of slots, (c) random bytes, (d) byte/structure mutations (flip, overwrite, delete, insert, truncate, splice, keyword insertion, deep nesting) of templates and of the 40+ repository PDFs. Non-trivial: some preset got past the header; distinct by input bytes. Budgets: 20 s thread CPU, reads <= 4096 x len + 64 MiB, live heap <= 768 MiB + 80 x len",
     assumptions=["Err results are always fine; only process-level events (panic, abort, SIGSEGV, budget overruns) count", "budgets restate 'unboundedly long / without bound' as bounded statements for inputs of at most 256 KiB"],
-    floors={"quick": {"evaluations": 8000, "distinct": 5000, "counters": {"slot_x_pool_cases": 2000, "cases_supervised": 8000}}, "thorough": {"evaluations": 500000, "distinct": 300000}},
+    floors={"quick": {"evaluations": 8000, "distinct": 5000, "counters": {"slot_x_pool_cases": 2000, "cases_supervised": 8000}}, "thorough": {"evaluations": 300000, "distinct": 200000}},
     level_text="Sampled hostile inputs with systematic enumeration of (numeric slot x boundary value) on the templates; every case is judged by monitors observing the real execution.",
     level_note="Trusted base: the monitors in harness/src/mon.rs and the supervisor in wl/c01.rs. No claim for inputs larger than 256 KiB or for paths the navigation script does not call.",
 )
@@ -293,7 +293,7 @@ PROPS["C30"] = dict(
     stages=[rust(), py("pyref.checks.c30")],
     rule="names over classes {plain, each delimiter / white-space / '#', control characters incl. NUL CR LF, Latin-1, BMP, astral, empty, 127 and 300 bytes, random mixtures} x entry points {add_image+draw_image, two images whose names collide under naive escaping, add_form_xobject, add_color_space + named calibrated colour, add_shading + paint_shading, add_font_from_bytes + Font::Custom} x sampled writer configurations. An API that rejects the name with an error is accepted. Non-trivial: the name was accepted and a file was written; distinct by case",
     assumptions=["a name is compared as its UTF-8 bytes after #xx decoding", "rejecting a name with an error does not break the page and is accepted"],
-    floors={"quick": {"evaluations": 1500, "distinct": 600, "counters": {"independent_reader_ok": 300}}, "thorough": {"evaluations": 90000, "distinct": 40000}},
+    floors={"quick": {"evaluations": 1500, "distinct": 600, "counters": {"independent_reader_ok": 300}}, "thorough": {"evaluations": 22000, "distinct": 10000}},
     level_text="Sampled names, all entry points; each written file is judged by an independent parser.",
     level_note="Trusted base: pyref/pdf.py and pyref/validate.py. Pattern names and form-field export states are not driven (patterns have no public drawing call that takes a user name).",
 )
